@@ -8,7 +8,8 @@ Driver glue for C49.
                `d<t>`/`D<t>` Team.do (returns / raises)   `g<n>` grow   `s<n>`/`sN` shrink   `q` quit
                `l<int>` the limit function now returns <int>
                `c` coordinator performs one   `w<i>` worker i performs one   `a<k>` the k-th enabled queue performs one
-               `S` start  `X` stop  `p<t>`/`P<t>` callInThreadWithCallback (returns / raises)
+               `S` start  `X` stop  `p<t>`/`P<t>` callInThreadWithCallback (func returns / raises) with a
+               callback that returns; suffix `!` = the callback raises, suffix `_` = `onResult is None`
                `j<mn|_>:<mx|_>` adjustPoolsize   `+` startAWorker   `~` stopAWorker
   → `log=<events ;>|idle=<ids .>|busy=<n>|pend=<task ids .>|shr=<n>|sq=<0|1>|quit=<0|1>|cq=<len>:<0|1>|w=<qlen>:<0|1>;…`
     or `!crashed`.
@@ -22,6 +23,13 @@ def dots (s : String) : Option (List Nat) :=
 def optInt (s : String) : Option (Option Int) :=
   if s = "_" then some none else s.toInt?.map some
 
+/-- `<t>` callback returns, `<t>!` callback raises, `<t>_` no callback (`onResult is None`) -/
+def decCall (raises : Bool) (r : List Char) : Option Op :=
+  match r.reverse with
+  | '!' :: d => (String.ofList d.reverse).toNat?.map fun t => .pCall t raises .raises
+  | '_' :: d => (String.ofList d.reverse).toNat?.map fun t => .pCall t raises .absent
+  | _ => (String.ofList r).toNat?.map fun t => .pCall t raises .returns
+
 def decOp (s : String) : Option Op :=
   match s.toList with
   | ['q'] => some .quit
@@ -33,8 +41,8 @@ def decOp (s : String) : Option Op :=
   | ['s', 'N'] => some (.shrink none)
   | 'd' :: r => (String.ofList r).toNat?.map fun t => .doTask t false
   | 'D' :: r => (String.ofList r).toNat?.map fun t => .doTask t true
-  | 'p' :: r => (String.ofList r).toNat?.map fun t => .pCall t false
-  | 'P' :: r => (String.ofList r).toNat?.map fun t => .pCall t true
+  | 'p' :: r => decCall false r
+  | 'P' :: r => decCall true r
   | 'g' :: r => (String.ofList r).toNat?.map .grow
   | 's' :: r => (String.ofList r).toNat?.map fun n => .shrink (some n)
   | 'l' :: r => (String.ofList r).toInt?.map .limit
@@ -56,7 +64,8 @@ def showEv : Ev → String
   | .res t ok => s!"o{t}" ++ (if ok then "+" else "-")
   | .wquit w => s!"wq{w}"
   | .cquit => "cq"
-  | .accept t => s!"ac{t}"
+  | .accept t => s!"ac{t.1}"
+  | .logerr t => s!"le{t}"
   | .refused k => s!"x{k}"
   | .dropped t => s!"dr{t}"
   | .assertion => "as"
